@@ -90,7 +90,7 @@ class RefCaches:
                 self._fut[s] = None  # a refused request: the statement says nothing about its future
             return v
         if res != "self":
-            v.append((f"add-failed|{res.split(':')[1] if res.startswith('exc:') else res}|prev:{self.state_name(s)}",
+            v.append((f"add-failed|{res.split(':')[1] if res.startswith('exc:') else res}",
                       f"add(slot {s}) at t={t} returned {res} although the identity is free and nothing was shut down"))
             return v
         self._prev_end[s] = self.state_name(s) if self._state[s] != NEW else "-"
